@@ -45,6 +45,7 @@ type PropCfg struct {
 	Level     string            `json:"level"`
 	Rule      string            `json:"rule"`
 	Assumptions []string        `json:"assumptions"`
+	NativeReplay bool           `json:"native_replay"`
 }
 
 type Registry map[string]*PropCfg
@@ -441,13 +442,13 @@ func report(prop, tier string, pc *PropCfg, sh *Shared, entries []string, t0 tim
 			continue
 		}
 		rp := filepath.Join(*flagVerif, "replay", fmt.Sprintf("%s-%s.json", prop, strings.ReplaceAll(strings.TrimPrefix(label, prop+"/"), "/", "_")))
-		status := writeReplay(rp, first, ld)
+		status := writeReplay(rp, first, ld, sh.params, pc.NativeReplay)
 		replays++
 		if isKnown {
 			continue
 		}
 		nviol++
-		if status == "not-reproduced" {
+		if status == "not-reproduced" || status == "undecodable-model" || status == "error" {
 			fmt.Printf("INCONCLUSIVE property=%s reason=counterexample for %s did not reproduce natively (replay=%s)\n", prop, label, rp)
 			if exit == 0 {
 				exit = 2
@@ -590,22 +591,30 @@ func writeEvidence(prop, tier string, pc *PropCfg, sh *Shared, entries []string,
 	os.WriteFile(filepath.Join(*flagVerif, "evidence", prop+".json"), b, 0o644)
 }
 
-func writeReplay(path string, v *Violation, ld *Loaded) string {
-	rec := map[string]interface{}{
-		"label":     v.Label,
-		"entry":     v.Entry,
-		"message":   v.Msg,
-		"position":  v.Pos,
-		"model":     v.Model,
-		"concrete":  v.Concrete,
-		"uf":        v.UFs,
-		"schedule":  v.Trace,
-		"path_condition": v.PC,
-		"stack":     v.Stacks,
+func writeReplay(path string, v *Violation, ld *Loaded, params map[string]int, native bool) string {
+	rec, ok := buildReplay(v, params)
+	status := "not-attempted"
+	write := func() {
+		rec.Native = status
+		b, _ := json.MarshalIndent(rec, "", " ")
+		os.WriteFile(path, b, 0o644)
 	}
-	b, _ := json.MarshalIndent(rec, "", " ")
-	os.WriteFile(path, b, 0o644)
-	return "not-attempted"
+	if !ok {
+		status = "undecodable-model"
+		write()
+		return status
+	}
+	write()
+	if native && !*flagNoReplay {
+		st, out := nativeReplay(rec, path)
+		status = st
+		if len(out) > 4000 {
+			out = out[:4000]
+		}
+		rec.NativeOutput = out
+		write()
+	}
+	return status
 }
 
 var _ = sort.Strings
